@@ -4,7 +4,7 @@ set/list operations from the parent end, attribute edits.
 Model side = Python built-ins on labels + "a node inserted while owned
 elsewhere is moved".
 """
-from .core import SimFault
+from .core import EndOfDomain, SimFault
 from .ops import Exp, Op, Out, capture, register
 from .world import CTOR_PARENT_KW, FIELDS, PARENT_OF, MNode, field_of
 
@@ -305,6 +305,8 @@ class SetParent(Op):
         if p is not None:
             if w.m.nodes[p].kind != PARENT_OF[c.kind][0]:
                 return False
+            if op.get("out_of_domain"):
+                return collides(w, [op["child"]], p)
             if collides(w, [op["child"]], p):
                 return False
         return True
@@ -318,6 +320,15 @@ class SetParent(Op):
         return out
 
     def model(self, w, op, out):
+        if op.get("out_of_domain"):
+            # a second node with a UUID the IR already holds: no statement covers it. Accepted
+            # (today) -> the run ends here; refused -> nothing may have changed, the run goes on
+            # and the scans after this step decide whether the refusal was clean.
+            if out.kind == "ok":
+                w.counters["probe:out_of_domain_accepted"] += 1
+                raise EndOfDomain()
+            w.counters["probe:out_of_domain_refused"] += 1
+            return Exp("any")
         w.m.set_parent(op["child"], op.get("parent"))
         return Exp("ok", value=None, owner=("C04",))
 
@@ -352,6 +363,51 @@ def canon_elems(w, xs):
 def arg_objs(w, items):
     """labels -> objects; ints stay (junk elements of plain sets)."""
     return [w.objs[x] if isinstance(x, str) else x for x in items]
+
+
+@register
+class BulkNew(Op):
+    """{"op":"bulk_new","parent":P,"kind":K,"count":N,"base":B}: N fresh default nodes of one
+    kind handed to the parent's collection in ONE update() call - collections of a few hundred
+    members, where an implementation may switch strategy. Labels B0..B(N-1)."""
+
+    name = "bulk_new"
+    family = "construct"
+
+    def labels(self, op):
+        return [(op["parent"], (PARENT_OF[op["kind"]][0],))]
+
+    def touched(self, w, op):
+        return [op["parent"]]
+
+    def ready(self, w, op):
+        return (op["base"] + "0") not in w.m.nodes and (op["base"] + "0") not in w.label_uuid
+
+    def run(self, w, op):
+        kind = op["kind"]
+        cls = w.kind_cls[kind]
+        objs = []
+        for i in range(op["count"]):
+            objs.append(cls(name="%s%d" % (op["base"], i)) if kind in ("sec", "sym") else cls())
+        coll = getattr(w.objs[op["parent"]], PARENT_OF[kind][1])
+        out = capture(lambda: coll.update(objs))
+        out.value = None
+        out.raw = objs
+        return out
+
+    def model(self, w, op, out):
+        kind = op["kind"]
+        if out.kind != "ok":
+            return Exp("ok", value=None, owner=OWN)
+        for i, obj in enumerate(out.raw):
+            label = "%s%d" % (op["base"], i)
+            a = DEFAULTS[kind]()
+            if kind in ("sec", "sym"):
+                a["name"] = label
+            w.register(label, obj, MNode(label, kind, obj.uuid.int, None, a))
+            w.m.set_parent(label, op["parent"])
+        w.counters["probe:bulk_new_nodes"] += len(out.raw)
+        return Exp("ok", value=None, owner=OWN)
 
 
 def wrap_items(m, a):
@@ -1102,6 +1158,14 @@ class SetAttr(Op):
     def model(self, w, op, out):
         n = w.m.nodes[op["label"]]
         attr, v = op["attr"], op["value"]
+        if attr == "address" and isinstance(v, int) and v < 0:
+            # no statement says whether an address outside the schema's range is accepted (it is,
+            # today). Either way everything must stay consistent: taken -> the model follows;
+            # refused -> nothing changed. The scans after this step decide.
+            w.counters["probe:negative_address_" + ("taken" if out.kind == "ok" else "refused")] += 1
+            if out.kind == "ok":
+                n.a[attr] = v
+            return Exp("any")
         if attr == "flags":
             n.a["flags"] = set(v)
         elif attr == "flag_add":
